@@ -218,9 +218,26 @@ impl Node for Chunked {
 }
 
 // ---------------------------------------------------------------------------- adapters
-impl Node for Take<Box<dyn Node>> {
+/// the child of an adapter: forwards EVERY Buf method to the node behind it (see sink.rs `D`)
+pub struct DN(pub Box<dyn Node>);
+forward_buf!(DN, |s| &*s.0, |m| &mut *m.0);
+impl Node for DN {
+    fn child(&mut self, i: u64) -> Option<&mut dyn Node> {
+        self.0.child(i)
+    }
+    fn advance_at(&mut self, path: &[u64], n: usize) -> bool {
+        self.0.advance_at(path, n)
+    }
+    fn info(&self, out: &mut String) {
+        self.0.info(out)
+    }
+    fn set_limit(&mut self, path: &[u64], v: usize) -> bool {
+        self.0.set_limit(path, v)
+    }
+}
+impl Node for Take<DN> {
     fn child(&mut self, _i: u64) -> Option<&mut dyn Node> {
-        Some(&mut **self.get_mut())
+        Some(&mut *self.get_mut().0)
     }
     fn info(&self, out: &mut String) {
         let _ = write!(out, "{{\"k\":\"take\",\"limit\":{},\"t\":", enc(self.limit()));
@@ -236,9 +253,9 @@ impl Node for Take<Box<dyn Node>> {
         }
     }
 }
-impl Node for Chain<Box<dyn Node>, Box<dyn Node>> {
+impl Node for Chain<DN, DN> {
     fn child(&mut self, i: u64) -> Option<&mut dyn Node> {
-        Some(if i == 0 { &mut **self.first_mut() } else { &mut **self.last_mut() })
+        Some(if i == 0 { &mut *self.first_mut().0 } else { &mut *self.last_mut().0 })
     }
     fn info(&self, out: &mut String) {
         out.push_str("{\"k\":\"chain\",\"limit\":0,\"a\":");
@@ -393,8 +410,8 @@ pub fn build(v: &Value) -> Box<dyn Node> {
             c.skip_empty();
             Box::new(c)
         }
-        "chain" => Box::new(build(&v["a"]).chain(build(&v["b"]))),
-        "take" => Box::new(build(&v["t"]).take(dec(&v["limit"]))),
+        "chain" => Box::new(DN(build(&v["a"])).chain(DN(build(&v["b"])))),
+        "take" => Box::new(DN(build(&v["t"])).take(dec(&v["limit"]))),
         "ref" => Box::new(RefNode { inner: Box::into_raw(build(&v["t"])) }),
         "box" => Box::new(BoxNode(Box::new(build(&v["t"])))),
         other => panic!("unknown node kind {}", other),
